@@ -3,6 +3,7 @@ package rules
 import (
 	"fmt"
 	"go/types"
+	"sort"
 	"strings"
 
 	"verif/internal/load"
@@ -636,6 +637,63 @@ func runT14(c *load.Ctx, r *report.RuleResult) {
 				r.Bad(key, pos, "the rule is not run on the document literal: "+fmt.Sprint(o.Effects))
 			default:
 				r.OK(key, pos, fmt.Sprintf("%d run(s)", runs))
+			}
+		}
+	}
+	// no rule hides another: with const on the node, every other rule still runs (and const itself)
+	constCI := e.byName["ConstConstraintType"]
+	if constCI == nil || constCI.named == nil {
+		r.Unk("anchor|constraint.Const", pos, "const constraint type not found")
+		return
+	}
+	for _, v := range validators {
+		ci := typeOf[v]
+		if ci == nil || ci == constCI {
+			continue
+		}
+		e.cfg.Intrinsics[prefix+"ConstraintMap"] = func(in *pe.Interp, args []pe.Value) (pe.Value, bool) {
+			m := in.NewStruct(consT, "constraints")
+			for _, x := range []*constraintInfo{constCI, ci} {
+				st := x.named.Underlying().(*types.Struct)
+				sv := &pe.StructV{T: x.named, F: make([]pe.Value, st.NumFields())}
+				for i := 0; i < st.NumFields(); i++ {
+					sv.F[i] = pe.NewSym(x.named.Obj().Name()+"."+st.Field(i).Name(), st.Field(i).Type())
+				}
+				obj := &pe.Iface{T: types.NewPointer(x.named), V: &pe.Ptr{Obj: in.NewObj(x.named, sv, x.named.Obj().Name()), T: x.named}}
+				in.Call(setFn, []pe.Value{m, x.val, obj})
+			}
+			return m, true
+		}
+		outs := pe.ExploreFn(e.cfg, func(in *pe.Interp) pe.Value {
+			return in.Call(fn, []pe.Value{pe.NewSym("node", e.nodeT), pe.NewSym("value", fn.Params[1].Type())})
+		})
+		for _, o := range outs {
+			val := o.ChoiceMap()
+			var asked []string
+			for n, l := range val {
+				if strings.HasPrefix(n, "Const.") {
+					asked = append(asked, n+"="+l)
+				}
+			}
+			sort.Strings(asked)
+			key := fmt.Sprintf("literal-pair|rule=%s|with=Const|%s", v.Obj().Name(), strings.Join(asked, ","))
+			verdict, code := verdictOf(o)
+			if verdict == "undecided" || verdict == "crash" {
+				r.Unk(key, pos, verdict+": "+code)
+				continue
+			}
+			runs := map[string]int{}
+			for _, ef := range o.Effects {
+				for _, n := range []string{v.Obj().Name(), "Const"} {
+					if strings.HasPrefix(ef, "validate "+n+"(") {
+						runs[n]++
+					}
+				}
+			}
+			if runs[v.Obj().Name()] != 1 || runs["Const"] != 1 {
+				r.Bad(key, pos, fmt.Sprintf("on a node carrying const and %s, %s is run %d time(s) and const %d time(s); every rule of the node must be run exactly once, whatever the other rules are", v.Obj().Name(), v.Obj().Name(), runs[v.Obj().Name()], runs["Const"]))
+			} else {
+				r.OK(key, pos, "both rules run once")
 			}
 		}
 	}
